@@ -40,7 +40,7 @@ FIT_FAULTS = (
 )
 TRANSFORM_FAULTS = (
     "t_type_ndarray", "t_missing_feature_dim", "t_missing_sample_dim", "t_extra_dim", "t_renamed_dim", "t_shifted_coords",
-    "t_reordered_other_values", "t_reordered_same_labels", "t_fewer_features", "t_dropped_variable", "t_wrong_list_length", "t_list_too_long", "t_list_for_single", "t_dataarray_for_dataset",
+    "t_reordered_other_values", "t_reordered_same_labels", "t_fewer_features", "t_dropped_variable", "t_wrong_list_length", "t_list_too_long", "t_list_for_single", "t_dataarray_for_dataset", "t_variable_missing_feature_dim",
 )
 INVERSE_FAULTS = ("i_unknown_mode", "i_unknown_modes_mixed", "i_type_ndarray")
 # c_dataset_wrapping_dataarray: the SAME numbers wrapped into a one-variable Dataset for a DataArray-fitted model;
@@ -79,7 +79,7 @@ def _applicable(cls, container, fault):
     if fault.startswith("t_"):
         if cls not in zoo.HAS_TRANSFORM:
             return False
-        if fault in ("t_dropped_variable", "t_dataarray_for_dataset"):
+        if fault in ("t_dropped_variable", "t_dataarray_for_dataset", "t_variable_missing_feature_dim"):
             return container == "dataset"
         if fault in ("t_wrong_list_length", "t_list_too_long"):
             return container == "list"
@@ -175,6 +175,9 @@ def _mutate_transform(fault, X, rng):
         return _map(X, lambda o: o.isel(lon=slice(0, 2)) if "lon" in o.dims else o.isel({o.dims[-1]: slice(0, 2)}), only_first=True)
     if fault == "t_dropped_variable":
         return X.drop_vars("vb")
+    if fault == "t_variable_missing_feature_dim":
+        # the Dataset still has every fitted dimension, one of its variables has lost one (e.g. after .sel(lon=..))
+        return X.assign(va=X["va"].isel(lon=0, drop=True))
     if fault == "t_wrong_list_length":
         return X[:1]
     if fault == "t_list_too_long":
